@@ -209,7 +209,29 @@ func (e *Engine) registerEnvIntrinsics(pkgPath string) {
 		return TupleV{d, TrueT}
 	})
 	reg("vrtXMLTo", func(x *Exec, fr *frame, a []Value) Value {
-		return BoolC(isNilErr(x.xmlDecode(x.term(a[0]), a[1])))
+		data := x.term(a[0])
+		ok := isNilErr(x.xmlDecode(data, a[1]))
+		// C18: the library's decoder returns exactly the values that were put into the
+		// document (custom marshalling methods of module types are executed by the
+		// encode / decode contracts and may break this)
+		if ok && x.E.Prop == "C18" {
+			if tok, isTok := x.tokenOf(x.shape(data)); isTok && tok.In != nil {
+				if iv, isI := x.force(a[1]).(*IfaceV); isI && iv.T != nil {
+					if p, isP := x.force(iv.V).(*Pointer); isP && !p.IsNil() {
+						in := tok.In
+						if ip, isIP := in.(*Pointer); isIP && !ip.IsNil() {
+							in = x.load(ip)
+						}
+						eq := x.deepEqual(in, x.load(p), 0)
+						if x.E.Debug {
+							fmt.Fprintln(os.Stderr, "FAITHFUL:", trunc(eq.Key(), 600))
+						}
+						x.assertCond("C18.library-decoder-returns-the-values-put-in", eq, "")
+					}
+				}
+			}
+		}
+		return BoolC(ok)
 	})
 	reg("vrtXMLDocs", func(x *Exec, fr *frame, a []Value) Value {
 		n := 0
